@@ -47,13 +47,28 @@ EventsOK(x) == LET good == Cardinality({j \in DOMAIN x.obs.tcp.resp : x.obs.tcp.
                /\ CountEv(evs, "sent", 0) >= good
                /\ CountEv(evs, "rejected", 0) = CountEv(evs, "sent", 1)
 
+\* empty lines in front of a request line: outside the grammar (a server may skip them, refuse the request or close), but what the
+\* server does may not depend on how the bytes were cut into reads: both executions answer as the reference execution does (the same
+\* bytes, every request in a read of its own), and the requests in front of it are answered as ever
+Lead(r) == "lead" \in DOMAIN r /\ r.lead
+HasLead(rs) == \E j \in DOMAIN rs : Lead(rs[j])
+KS(o) == [j \in DOMAIN o.resp |-> <<o.resp[j].k, o.resp[j].status>>]
+LeadOK(rs, x) == LET j == CHOOSE j \in DOMAIN rs : Lead(rs[j]) /\ \A m \in 1..(j - 1) : ~Lead(rs[m])
+                     pre == IdealKs(SubSeq(rs, 1, j - 1)) IN
+                 \* (over the socket a server that closes with input unread resets the connection, and responses already written may be lost
+                 \*  to the client: there the responses received are a prefix of the reference's)
+                 /\ KS(x.obs.mem) = KS(x.obs.ref) /\ IsPrefix(KS(x.obs.tcp), KS(x.obs.ref))
+                 /\ IsPrefix(pre, Ks(x.obs.ref))
+                 /\ \A o \in {x.obs.mem, x.obs.tcp} : \A m \in 1..Len(pre) : m \in DOMAIN o.resp => (o.resp[m].body_ok /\ o.resp[m].same /\ o.resp[m].status = 200)
 ScnClass(rs, cs) == IF Coalesced(rs, cs) THEN "coalesced" ELSE IF HeadSplit(rs, cs) THEN "head-split" ELSE "aligned-or-body-split"
 Judge(x) ==
   IF x.obs.kind # "conn" THEN [ok |-> FALSE, sig |-> [class |-> x.obs.kind, where |-> x.obs.where]]
   ELSE LET rs == x.scn.reqs
            cs == {x.scn.cuts[j] : j \in DOMAIN x.scn.cuts}
            m == ExecOK(rs, x.obs.mem)  t == ExecOK(rs, x.obs.tcp) IN
-       IF m /\ t /\ EventsOK(x) THEN [ok |-> TRUE, sig |-> [class |-> "ok"]]
+       IF HasLead(rs) THEN (IF LeadOK(rs, x) THEN [ok |-> TRUE, sig |-> [class |-> "ok"]]
+                            ELSE [ok |-> FALSE, sig |-> [class |-> ScnClass(rs, cs), outcome |-> "depends-on-the-reads-(empty-lines-before-a-request)", exec |-> "any"]])
+       ELSE IF m /\ t /\ EventsOK(x) THEN [ok |-> TRUE, sig |-> [class |-> "ok"]]
        ELSE IF m /\ t THEN [ok |-> FALSE, sig |-> [class |-> ScnClass(rs, cs), outcome |-> "session-events-inconsistent", exec |-> "tcp"]]
        ELSE [ok |-> FALSE, sig |-> [class |-> ScnClass(rs, cs),
                                     outcome |-> IF ~m THEN Outcome(rs, x.obs.mem) ELSE Outcome(rs, x.obs.tcp),
